@@ -150,22 +150,22 @@ Qed.
 (* ------------------------------------------------------------------ C04: no lost wake-up *)
 
 Definition NoLost (s : store) : Prop :=
-  (putq s <> [] -> admit_put s = false) /\ (getq s <> [] -> admit_get s = false).
+  (putq s <> [] -> allow_put s = false) /\ (getq s <> [] -> allow_get s = false).
 
-Lemma admit_put_nobelt s : is_belt (s_kind s) = false -> admit_put s = (used s <? cap s).
-Proof. unfold admit_put. destruct (s_kind s); simpl; try discriminate; intros _; apply andb_true_r. Qed.
+Lemma allow_put_nobelt s : is_belt (s_kind s) = false -> allow_put s = (used s <? cap s).
+Proof. unfold allow_put. destruct (s_kind s); simpl; try discriminate; intros _; apply andb_true_r. Qed.
 
 (* after one pass of the put trigger nothing servable is left, provided at most one unit was
    free whenever two or more requests were waiting *)
 Lemma trig_put_nolost s :
   is_belt (s_kind s) = false ->
   (forall r1 r2 q, putq s = r1 :: r2 :: q -> cap s <= used s + 1) ->
-  putq (fst (trig_put s)) <> [] -> admit_put (fst (trig_put s)) = false.
+  putq (fst (trig_put s)) <> [] -> allow_put (fst (trig_put s)) = false.
 Proof.
   intros NB H. unfold trig_put. destruct (putq s) as [|r q] eqn:EQ; simpl; [congruence|].
-  destruct (admit_put s) eqn:EA; simpl.
+  destruct (allow_put s) eqn:EA; simpl.
   - intros Hq. destruct q as [|r2 q]; [congruence|]. specialize (H _ _ _ eq_refl).
-    rewrite admit_put_nobelt by (simpl; exact NB). unfold used in *; simpl. rewrite app_length; simpl.
+    rewrite allow_put_nobelt by (simpl; exact NB). unfold used in *; simpl. rewrite app_length; simpl.
     apply Nat.ltb_ge. lia.
   - rewrite EQ. auto.
 Qed.
@@ -173,34 +173,34 @@ Qed.
 Lemma trig_get_nolost s s' ts :
   trig_get s = Some (s', ts) ->
   (forall r1 r2 q, getq s = r1 :: r2 :: q -> length (ready s) <= length (getres s) + 1) ->
-  getq s' <> [] -> admit_get s' = false.
+  getq s' <> [] -> allow_get s' = false.
 Proof.
   unfold trig_get. intros E H. destruct (getq s) as [|r q] eqn:EQ.
   { inversion E; subst. congruence. }
-  destruct (admit_get s) eqn:EA.
+  destruct (allow_get s) eqn:EA.
   - destruct (pick s); [|discriminate]. inversion E; subst. simpl. intros Hq.
     destruct q as [|r2 q]; [congruence|]. specialize (H _ _ _ eq_refl).
-    unfold admit_get; simpl. rewrite app_length; simpl. apply Nat.ltb_ge. lia.
+    unfold allow_get; simpl. rewrite app_length; simpl. apply Nat.ltb_ge. lia.
   - inversion E; subst. auto.
 Qed.
 
-Lemma admit_put_false s : is_belt (s_kind s) = false -> Inv s -> admit_put s = false -> used s = cap s.
+Lemma allow_put_false s : is_belt (s_kind s) = false -> Inv s -> allow_put s = false -> used s = cap s.
 Proof.
-  intros NB (H1 & _) E. rewrite admit_put_nobelt in E by auto. apply Nat.ltb_ge in E. lia.
+  intros NB (H1 & _) E. rewrite allow_put_nobelt in E by auto. apply Nat.ltb_ge in E. lia.
 Qed.
 
-Lemma admit_get_false s : Inv s -> admit_get s = false -> length (getres s) = length (ready s).
+Lemma allow_get_false s : Inv s -> allow_get s = false -> length (getres s) = length (ready s).
 Proof.
-  intros HI E. pose proof (inv_getres_le _ HI). unfold admit_get in E. apply Nat.ltb_ge in E. lia.
+  intros HI E. pose proof (inv_getres_le _ HI). unfold allow_get in E. apply Nat.ltb_ge in E. lia.
 Qed.
 
-Lemma trig_put_getpart s : getq (fst (trig_put s)) = getq s /\ admit_get (fst (trig_put s)) = admit_get s.
-Proof. unfold admit_get. destruct (trig_put_fields s) as (_ & _ & -> & -> & -> & _). auto. Qed.
+Lemma trig_put_getpart s : getq (fst (trig_put s)) = getq s /\ allow_get (fst (trig_put s)) = allow_get s.
+Proof. unfold allow_get. destruct (trig_put_fields s) as (_ & _ & -> & -> & -> & _). auto. Qed.
 
 Lemma trig_get_putpart s s' ts :
-  trig_get s = Some (s', ts) -> putq s' = putq s /\ admit_put s' = admit_put s.
+  trig_get s = Some (s', ts) -> putq s' = putq s /\ allow_put s' = allow_put s.
 Proof.
-  intros E. unfold admit_put, used. destruct (trig_get_fields _ _ _ E) as (-> & -> & -> & -> & -> & _ & -> & _ & ->). auto.
+  intros E. unfold allow_put, used. destruct (trig_get_fields _ _ _ E) as (-> & -> & -> & -> & -> & _ & -> & _ & ->). auto.
 Qed.
 
 Lemma ins_nonnil r q : ins r q <> [].
@@ -212,7 +212,7 @@ Proof.
 Qed.
 
 Lemma trig_get_nogrant s1 s2 ts :
-  trig_get s1 = Some (s2, ts) -> admit_get s1 = false \/ getq s1 = [] -> s2 = s1.
+  trig_get s1 = Some (s2, ts) -> allow_get s1 = false \/ getq s1 = [] -> s2 = s1.
 Proof.
   unfold trig_get. intros E HC. destruct (getq s1) as [|r q].
   - inversion E; auto.
@@ -228,7 +228,7 @@ Proof.
   - (* RPut *) tp. simpl. split.
     + apply trig_put_nolost; [exact NB|]. simpl. intros r1 r2 q EQ.
       destruct (putq s) as [|x q0] eqn:EP; [simpl in EQ; discriminate|].
-      assert (used s = cap s) by (apply admit_put_false; auto; apply NP; congruence).
+      assert (used s = cap s) by (apply allow_put_false; auto; apply NP; congruence).
       unfold used in *; simpl. lia.
     + match goal with |- context [trig_put ?z] => destruct (trig_put_getpart z) as (-> & ->) end. exact NG.
   - (* RGet *)
@@ -237,7 +237,7 @@ Proof.
     + destruct (trig_get_putpart _ _ _ E) as (-> & ->). exact NP.
     + eapply trig_get_nolost; [exact E|]. simpl. intros r1 r2 q EQ.
       destruct (getq s) as [|x q0] eqn:EP; [simpl in EQ; discriminate|].
-      assert (length (getres s) = length (ready s)) by (apply admit_get_false; auto; apply NG; congruence).
+      assert (length (getres s) = length (ready s)) by (apply allow_get_false; auto; apply NG; congruence).
       lia.
   - (* Put *)
     destruct (existsb (owns p t) (putres s)) eqn:EO; simpl; [|split; auto].
@@ -246,10 +246,10 @@ Proof.
     destruct (Nat.ltb_spec (length (transit s) + length (ready s)) (cap s)); simpl.
     2:{ simpl in K1. discriminate. }
     remember (set_transit (set_putres s (remove_first (owns p t) (putres s))) (transit s ++ [i])) as s1 eqn:ES1.
-    assert (admit_put s1 = admit_put s /\ putq s1 = putq s /\ admit_get s1 = admit_get s /\ getq s1 = getq s /\ s_kind s1 = s_kind s) as (A1 & A2 & A3 & A4 & A5).
-    { subst s1. rewrite !admit_put_nobelt by (simpl; auto). unfold used, admit_get; simpl.
+    assert (allow_put s1 = allow_put s /\ putq s1 = putq s /\ allow_get s1 = allow_get s /\ getq s1 = getq s /\ s_kind s1 = s_kind s) as (A1 & A2 & A3 & A4 & A5).
+    { subst s1. rewrite !allow_put_nobelt by (simpl; auto). unfold used, allow_get; simpl.
       rewrite app_length; simpl. repeat split; auto. f_equal. lia. }
-    assert (admit_get s1 = false \/ getq s1 = []) as HC.
+    assert (allow_get s1 = false \/ getq s1 = []) as HC.
     { rewrite A3, A4. destruct (getq s); [right; auto|left; apply NG; congruence]. }
     assert (NoLost s1) as NL1.
     { split; [rewrite A1, A2; exact NP | rewrite A3, A4; exact NG]. }
@@ -270,24 +270,24 @@ Proof.
     pose proof (remove_nth_len_lt i (getres s) (nth_error_lt' _ _ _ EN)) as LG.
     tp. simpl. split.
     + apply trig_put_nolost; [exact NB|]. simpl. intros r1 r2 q EQ.
-      assert (used s = cap s) by (apply admit_put_false; auto; apply NP; congruence).
+      assert (used s = cap s) by (apply allow_put_false; auto; apply NP; congruence).
       unfold used in *; simpl. lia.
     + match goal with |- context [trig_put ?z] => destruct (trig_put_getpart z) as (-> & ->) end.
-      simpl. intros HQ. specialize (NG HQ). unfold admit_get in *; simpl.
+      simpl. intros HQ. specialize (NG HQ). unfold allow_get in *; simpl.
       apply Nat.ltb_ge in NG. apply Nat.ltb_ge. lia.
   - (* CPut *)
     destruct (existsb (tokb t) (putq s)) eqn:EQ.
     + tp. simpl. split.
       * apply trig_put_nolost; [exact NB|]. simpl. intros r1 r2 q EQ2.
         assert (putq s <> []) as NE by (intros Z; rewrite Z in EQ; discriminate).
-        assert (used s = cap s) by (apply admit_put_false; auto).
+        assert (used s = cap s) by (apply allow_put_false; auto).
         unfold used in *; simpl. lia.
       * match goal with |- context [trig_put ?z] => destruct (trig_put_getpart z) as (-> & ->) end. exact NG.
     + destruct (existsb (tokb t) (putres s)) eqn:ER; simpl; [|split; auto].
       pose proof (remove_first_len_ex _ _ ER) as LP.
       tp. simpl. split.
       * apply trig_put_nolost; [exact NB|]. simpl. intros r1 r2 q EQ2.
-        assert (used s = cap s) by (apply admit_put_false; auto; apply NP; congruence).
+        assert (used s = cap s) by (apply allow_put_false; auto; apply NP; congruence).
         unfold used in *; simpl. lia.
       * match goal with |- context [trig_put ?z] => destruct (trig_put_getpart z) as (-> & ->) end. exact NG.
   - (* CGet *)
@@ -297,7 +297,7 @@ Proof.
       * destruct (trig_get_putpart _ _ _ E) as (-> & ->). exact NP.
       * eapply trig_get_nolost; [exact E|]. simpl. intros r1 r2 q EQ2.
         assert (getq s <> []) as NE by (intros Z; rewrite Z in EQ; discriminate).
-        assert (length (getres s) = length (ready s)) by (apply admit_get_false; auto). lia.
+        assert (length (getres s) = length (ready s)) by (apply allow_get_false; auto). lia.
     + destruct (index_where (tokb2 t) (getres s)) as [i|] eqn:EI; simpl; [|split; auto].
       destruct (nth_error (getres s) i) as [[r it]|] eqn:EN; simpl; [|split; auto].
       destruct (existsb (Nat.eqb it) (ready s)) eqn:ER; simpl; [|split; auto].
@@ -313,7 +313,7 @@ Proof.
       tg HX. simpl. split.
       * destruct (trig_get_putpart _ _ _ E) as (-> & ->). exact NP.
       * eapply trig_get_nolost; [exact E|]. simpl. intros r1 r2 q EQ2.
-        assert (length (getres s) = length (ready s)) by (apply admit_get_false; auto; apply NG; congruence). lia.
+        assert (length (getres s) = length (ready s)) by (apply allow_get_false; auto; apply NG; congruence). lia.
   - (* Ready *)
     destruct (existsb (Nat.eqb i) (transit s)) eqn:EX; simpl; [|split; auto].
     pose proof (remove_first_len_ex _ _ EX) as LT.
@@ -326,19 +326,19 @@ Proof.
     + destruct (trig_get_putpart _ _ _ E2) as (P1 & P2).
       destruct (trig_get_fields _ _ _ E2) as (F1 & F2 & F3 & F4 & F5 & _ & F7 & _).
       apply trig_put_nolost; [rewrite F7; exact NB|]. rewrite P1. simpl. intros r1 r2 q EQ.
-      assert (used s = cap s) by (apply admit_put_false; auto; apply NP; congruence).
+      assert (used s = cap s) by (apply allow_put_false; auto; apply NP; congruence).
       unfold used in *. rewrite F1, F2, F3, F5. simpl. rewrite app_length. simpl. lia.
     + match goal with |- context [trig_put ?z] => destruct (trig_put_getpart z) as (-> & ->) end.
       eapply trig_get_nolost; [exact E2|]. simpl. intros r1 r2 q EQ.
-      assert (length (getres s) = length (ready s)) by (apply admit_get_false; auto; apply NG; congruence).
+      assert (length (getres s) = length (ready s)) by (apply allow_get_false; auto; apply NG; congruence).
       rewrite app_length; simpl. lia.
-  - (* SetGate *) split; simpl; auto. rewrite admit_put_nobelt in * by (simpl; auto). exact NP.
+  - (* SetGate *) split; simpl; auto. rewrite allow_put_nobelt in * by (simpl; auto). exact NP.
   - (* TrigPut *) tp. simpl. split.
     + apply trig_put_nolost; [exact NB|]. intros r1 r2 q EQ.
-      assert (used s = cap s) by (apply admit_put_false; auto; apply NP; congruence). lia.
+      assert (used s = cap s) by (apply allow_put_false; auto; apply NP; congruence). lia.
     + destruct (trig_put_getpart s) as (-> & ->). exact NG.
   - (* Sync *) destruct (next s <=? n); simpl; split; auto;
-      rewrite admit_put_nobelt in * by (simpl; auto); exact NP.
+      rewrite allow_put_nobelt in * by (simpl; auto); exact NP.
 Qed.
 
 Lemma trig_put_kind s : s_kind (fst (trig_put s)) = s_kind s.
